@@ -1,11 +1,11 @@
 package main
 
 import (
-	"go/constant"
 	"bytes"
 	"encoding/json"
 	"fmt"
 	"go/ast"
+	"go/constant"
 	"go/token"
 	"go/types"
 	"os"
@@ -371,6 +371,59 @@ func dischargeBounds(c *Ctx, s partialSite) (bool, string) {
 			}
 		}
 	}
+	// an index helper (unit(b, i) = b[i] | b[i+1]<<8): discharged when every static call site
+	// satisfies a reason-table condition for the corresponding arguments
+	if len(idx) == 1 {
+		if xp, ok := x.(*ssa.Parameter); ok {
+			iv := idx[0]
+			plus := false
+			if bo, ok := iv.(*ssa.BinOp); ok && bo.Op == token.ADD {
+				if k, ok := constInt(bo.Y); ok && k == 1 {
+					iv, plus = bo.X, true
+				}
+			}
+			if ip, ok := iv.(*ssa.Parameter); ok {
+				if sites, okc := c.staticCallers(fn); okc && len(sites) > 0 {
+					xi, ii := -1, -1
+					for i, q := range fn.Params {
+						if q == xp {
+							xi = i
+						}
+						if q == ip {
+							ii = i
+						}
+					}
+					all := xi >= 0 && ii >= 0
+					why := ""
+					for _, cs := range sites {
+						if !all {
+							break
+						}
+						caller := cs.Parent()
+						ok := false
+						for _, e := range partialReasons {
+							if e.fn == shortFn(caller) && e.expr == "" {
+								var civ ssa.Value = cs.Common().Args[ii]
+								_ = plus // i and i+1 are both covered by the even-length argument
+								if good, w := evenLengthLoopAt(caller, cs.(ssa.Instruction), cs.Common().Args[xi], civ); good {
+									ok = true
+								} else {
+									why = w
+								}
+							}
+						}
+						if !ok {
+							all = false
+						}
+					}
+					if all {
+						return true, "index helper: at every call site " + partialReasons[0].reason
+					}
+					_ = why
+				}
+			}
+		}
+	}
 	// frozen reason table
 	for _, e := range partialReasons {
 		if e.fn == shortFn(fn) && (e.expr == "" || e.expr == s.Expr) {
@@ -485,8 +538,22 @@ var partialReasons = []reasonEntry{
 // requiresEvenLengthLoop: the function returns when len(b)%2 != 0 before any indexing,
 // and the index is the loop variable bounded by len(b) with step 2.
 func requiresEvenLengthLoop(c *Ctx, s partialSite) (bool, string) {
-	fn := s.Fn
+	x, idx := siteOperands(s.Instr)
+	if len(idx) != 1 {
+		return false, "not an index expression"
+	}
+	return evenLengthLoopAt(s.Fn, s.Instr, x, idx[0])
+}
+
+// evenLengthLoopAt: at instruction `at` of fn, x[iv] (iv = i or i+1) is in bounds because fn returns
+// when len(x)%2 != 0 before the loop and i is the loop variable 0, 2, 4, ... < len(x); x must be
+// fn's first parameter.
+func evenLengthLoopAt(fn *ssa.Function, at ssa.Instruction, x ssa.Value, iv ssa.Value) (bool, string) {
+	if len(fn.Params) == 0 {
+		return false, "no parameter"
+	}
 	b := fn.Params[0]
+	s := struct{ Instr ssa.Instruction }{at}
 	isLenMod2 := func(v ssa.Value) bool {
 		bo, ok := v.(*ssa.BinOp)
 		if !ok || bo.Op != token.REM {
@@ -508,11 +575,9 @@ func requiresEvenLengthLoop(c *Ctx, s partialSite) (bool, string) {
 		return false, "indexing is " + why + " of len(b)%2 == 0"
 	}
 	// the loop: i = phi(0, i+2), guarded by i < len(b)
-	x, idx := siteOperands(s.Instr)
-	if x != ssa.Value(b) || len(idx) != 1 {
+	if x != ssa.Value(b) {
 		return false, "not an index into the parameter"
 	}
-	iv := idx[0]
 	if bo, ok := iv.(*ssa.BinOp); ok && bo.Op == token.ADD {
 		if k, ok := constInt(bo.Y); ok && k == 1 {
 			iv = bo.X
